@@ -190,6 +190,10 @@ func (tp *TableParser) ParseTable(tbl tableXML) ParsedTable {
 	return parsed
 }
 
+// maxRepeatedColumns bounds table:number-columns-repeated (16384 is the column limit of current
+// ODF spreadsheet applications, far beyond any text-document table).
+const maxRepeatedColumns = 16384
+
 // parseTableColumns extracts column widths from column definitions.
 func (tp *TableParser) parseTableColumns(cols []tableColXML) []float64 {
 	var widths []float64
@@ -211,6 +215,11 @@ func (tp *TableParser) parseTableColumns(cols []tableColXML) []float64 {
 		if col.NumberRepeated != "" {
 			if r, err := strconv.Atoi(col.NumberRepeated); err == nil && r > 0 {
 				repeat = r
+			}
+			// The count is free text in the file; no table has more columns than the widest
+			// one an ODF application can produce.
+			if repeat > maxRepeatedColumns {
+				repeat = maxRepeatedColumns
 			}
 		}
 
